@@ -307,6 +307,37 @@ def part_groups(ck, rng):
         if t < 2:
             ck.sample({'object': 'WCSGroupCatalog', 'bb_policy': bp, 'members': k, 'layout': layout,
                        'member_hull_vertices': [m.nhull for m in members], 'all_sources_inside': ok})
+    # --- the documented fall-back: when spherical_geometry gives up on the union (MalformedPolygonError) the group's
+    #     footprint is the convex hull of its sources. The library fault is simulated (multi_union made to raise).
+    from tweakwcs import wcsimage as _wi
+    orig_union = _wi.SphericalPolygon.multi_union
+
+    def _raise(*a, **k):
+        raise _wi.MalformedPolygonError('simulated by the harness')
+    _wi.SphericalPolygon.multi_union = staticmethod(_raise)
+    try:
+        for t in range(ck.n(12, 100)):
+            crval = SKY[(t * 7 + 3) % len(SKY)]
+            k = [2, 3, 4][t % 3]
+            members = []
+            for i in range(k):
+                cv = (offset_crval(crval, 0.003 * i * rng.random(), 0.002 * i * rng.random()) if t % 2
+                      else offset_crval(crval, 0.0125 * (i % 3), 0.0125 * (i // 3)))
+                members.append(Member(rng, cv, rng.choice([6, 8, 10, 15]), 'f%d_%d' % (t, i)))
+            ck.count('catalog_kind', 'group (union fall-back)')
+            rp = {'object': 'WCSGroupCatalog', 'bb_policy': 'exact', 'members': [m.describe() for m in members],
+                  'how': 'SphericalPolygon.multi_union patched to raise MalformedPolygonError; '
+                         'WCSGroupCatalog([...], bb_policy="exact")'}
+            try:
+                g = WCSGroupCatalog([m.im for m in members], name='f%d' % t, bb_policy='exact')
+            except Exception as e:       # noqa: BLE001
+                rp.update(kind='group-footprint-fall-back-failed', exception=repr(e))
+                ck.violation(rp)
+                continue
+            check_containment(ck, 'group-fall-back', g.polygon, [m.v for m in members], rp)
+            ck.case(('group-fallback', [(m.x, m.y, m.crval) for m in members]), True)
+    finally:
+        _wi.SphericalPolygon.multi_union = orig_union
     return pool
 
 
